@@ -58,6 +58,7 @@ type LogEntry struct {
 	HookReq  map[string]interface{} `json:"hookReq,omitempty"`
 	HookResp interface{}            `json:"hookResp,omitempty"`
 	HookRaw  string                 `json:"hookRaw,omitempty"`
+	HookRetryAfter int              `json:"hookRetryAfter,omitempty"`
 }
 
 // Fault makes the nth (1-based) request matching (Verb, Resource, Name) fail. Empty fields match all.
@@ -83,11 +84,15 @@ type Sim struct {
 	Server   *httptest.Server
 	watchers map[string][]chan watchEvent
 	Quiet    bool // do not log list/watch
+	// FaultAt makes the request with this index (0-based, within the current log) fail.
+	FaultAt map[int][2]string // index -> (code, reason)
+	// CutAfter >= 0: every request with index >= CutAfter fails with 503 and changes nothing (a crash seen from the store)
+	CutAfter int
 }
 
 func NewSim(defs []ResourceDef) *Sim {
 	s := &Sim{defs: defs, objs: map[Key]map[string]interface{}{}, applied: map[string]map[string]interface{}{},
-		rv: 100, Env: map[int]func(*Sim){}, watchers: map[string][]chan watchEvent{}}
+		rv: 100, Env: map[int]func(*Sim){}, watchers: map[string][]chan watchEvent{}, CutAfter: -1}
 	s.Server = httptest.NewServer(http.HandlerFunc(s.serve))
 	return s
 }
@@ -457,8 +462,20 @@ func (s *Sim) serve(w http.ResponseWriter, r *http.Request) {
 	}
 
 	code, reason, resp := 0, "", map[string]interface{}(nil)
+	if s.CutAfter >= 0 && idx >= s.CutAfter {
+		code, reason = 503, "ServiceUnavailable"
+		e.Injected = true
+	}
+	if f, ok := s.FaultAt[idx]; ok && code == 0 {
+		fmt.Sscanf(f[0], "%d", &code)
+		reason = f[1]
+		e.Injected = true
+	}
 	// fault injection
 	for _, f := range s.Faults {
+		if code != 0 {
+			break
+		}
 		if (f.Verb == "" || f.Verb == verb) && (f.Resource == "" || f.Resource == pp.resource) && (f.Name == "" || f.Name == name) {
 			f.seen++
 			if f.seen == f.Nth {
